@@ -9,6 +9,8 @@ package main
 //	A2 child of A, path ["ext2"], extended colour *string
 //
 // case line:   h <tx>;<tx>;…      tx = <op>,<op>,…      (one Db.Update per tx, first error aborts it)
+//              g <tx>;<tx>;…      the same with A2's strategy registered before A1's
+//              k <tx>;<tx>;… <item>;<item>;…   the same, then cursor scripts / provider queries (c15_cursor.go)
 //
 //	c/<s>/<id>/<name>/<roles>/<child>         Create through store s (0 = A, 1 = A1, 2 = A2)
 //	u/<s>/<id>/<name>/<roles>/<child>/<chk>   Update; chk = * (nil checker) | subset of "nrc" | -
@@ -157,8 +159,9 @@ func c15ParentMapper(entity boltz.Entity) boltz.Entity {
 	return entity
 }
 
-// the stores are declared the way boltz/manager_store_test.go declares a child store
-func c15NewStores() *c15Stores {
+// the stores are declared the way boltz/manager_store_test.go declares a child store;
+// a2First: register the extended child store's strategy before the plain child store's
+func c15NewStores(a2First bool) *c15Stores {
 	s := &c15Stores{}
 	s.a = boltz.NewBaseStore(boltz.StoreDefinition[*c15Thing]{
 		EntityType:      "things",
@@ -186,7 +189,7 @@ func c15NewStores() *c15Stores {
 
 	// update delegation: the mapper says "this entity has child data" and hands the child store
 	// its stored entity with the shared fields replaced by the caller's
-	s.a.RegisterChildStoreStrategy(&boltz.ChildStoreUpdateHandler[*c15Thing, *c15Ext1]{
+	h1 := &boltz.ChildStoreUpdateHandler[*c15Thing, *c15Ext1]{
 		Store: s.a1,
 		Mapper: func(ctx boltz.MutateContext, parent *c15Thing) (*c15Ext1, bool) {
 			if !s.a1.IsEntityPresent(ctx.Tx(), parent.Id) {
@@ -199,8 +202,8 @@ func c15NewStores() *c15Stores {
 			child.c15Thing = *parent
 			return child, true
 		},
-	})
-	s.a.RegisterChildStoreStrategy(&boltz.ChildStoreUpdateHandler[*c15Thing, *c15Ext2]{
+	}
+	h2 := &boltz.ChildStoreUpdateHandler[*c15Thing, *c15Ext2]{
 		Store: s.a2,
 		Mapper: func(ctx boltz.MutateContext, parent *c15Thing) (*c15Ext2, bool) {
 			if !s.a2.IsEntityPresent(ctx.Tx(), parent.Id) {
@@ -213,7 +216,14 @@ func c15NewStores() *c15Stores {
 			child.c15Thing = *parent
 			return child, true
 		},
-	})
+	}
+	if a2First {
+		s.a.RegisterChildStoreStrategy(h2)
+		s.a.RegisterChildStoreStrategy(h1)
+	} else {
+		s.a.RegisterChildStoreStrategy(h1)
+		s.a.RegisterChildStoreStrategy(h2)
+	}
 
 	// entity event listeners on every store (synchronous, delivered by the commit hooks)
 	for sel, st := range []boltz.Store{s.a, s.a1, s.a2} {
@@ -545,10 +555,15 @@ func c15Dump(tx *bbolt.Tx) string {
 
 func c15Exec(line string) string {
 	f := fields(line)
-	if len(f) != 2 || f[0] != "h" {
+	if !(len(f) == 2 && (f[0] == "h" || f[0] == "g")) && !(len(f) == 3 && f[0] == "k") {
 		return "bad-case"
 	}
-	dir, err := os.MkdirTemp("", "verif-*")
+	// boltz.Open offers no NoSync option: one fsync per transaction; a memory-backed directory, where
+	// there is one, makes the run three times faster (same outputs)
+	dir, err := os.MkdirTemp("/dev/shm", "verif-*")
+	if err != nil {
+		dir, err = os.MkdirTemp("", "verif-*")
+	}
 	if err != nil {
 		panic(err)
 	}
@@ -559,7 +574,7 @@ func c15Exec(line string) string {
 	}
 	defer func() { _ = db.Close() }()
 
-	s := c15NewStores()
+	s := c15NewStores(f[0] == "g") // g: the extended child store registered before the plain one
 	err = db.Update(nil, func(ctx boltz.MutateContext) error {
 		// the entities bucket exists from the start, as after any first create
 		if b := boltz.GetOrCreatePath(ctx.Tx(), "u", "things"); b.HasError() {
@@ -609,6 +624,12 @@ func c15Exec(line string) string {
 			return nil
 		})
 		segs = append(segs, seg)
+	}
+	if f[0] == "k" { // cursor scripts and provider queries over the final state (c15_cursor.go)
+		_ = db.View(func(tx *bbolt.Tx) error {
+			segs = append(segs, s.runItems(tx, f[2]))
+			return nil
+		})
 	}
 	return strings.Join(segs, " ;; ")
 }
@@ -853,6 +874,7 @@ func c15Gen(tier string, seed uint64, out *bufio.Writer) {
 		for os_ := 0; os_ < 3; os_++ {
 			for _, second := range []string{"u/%d/1/2/2/2/*", "u/%d/1/3/-/n/n", "u/%d/1/4/1.3/1/rc", "u/%d/1/4/3/3/*", "d/%d/1", "c/%d/1/2/2/1"} {
 				fmt.Fprintf(out, "h c/0/2/3/1/n;c/1/3/2/2/3;c/%d/1/1/1.2/1;%s;d/0/2\n", cs, fmt.Sprintf(second, os_))
+				fmt.Fprintf(out, "g c/0/2/3/1/n;c/1/3/2/2/3;c/%d/1/1/1.2/1;%s;d/0/2\n", cs, fmt.Sprintf(second, os_))
 			}
 		}
 	}
@@ -860,5 +882,12 @@ func c15Gen(tier string, seed uint64, out *bufio.Writer) {
 		ntx := 4 + r.intn(9)
 		allow := true // child-store creates over existing parent entities are ordinary input
 		fmt.Fprintln(out, c15GenHist(r, ntx, allow))
+	}
+	c15GenCursorCases(tier, r, out)
+	// the other registration order of the two child stores (delete fan-out and update delegation
+	// walk the strategies in that order): random histories, entities carrying data of both child
+	// stores included (1 create in 6 extends an existing entity through a child store)
+	for i := 0; i < n/4; i++ {
+		fmt.Fprintln(out, "g"+c15GenHist(r, 4+r.intn(9), true)[1:])
 	}
 }
